@@ -27,6 +27,18 @@ CLAIMS = {
     "C05": dict(category="model_checking",
                 text="Grevm.tla has no stall timer: TLC's deadlock check on every explored block and <>Terminated under per-thread weak fairness (thorough tier) decide termination of the design, including abort, fallback and fatal paths; the counterexamples of the notification and re-offer guards are deadlocks that are replayed on the code. Under the controller park has no timeout, so a lost wake-up or lost re-offer in the real scheduler is a detected deadlock; runs cover 1-3 workers, error and fallback blocks, and a panic injected at every database key (the payload must reach the caller).",
                 design_ref="DESIGN.md 6 (C05)", note=SCHED_NOTE, technique=SCHED_TECH + " (deadlock / liveness)"),
+    "C07": dict(category="model_checking",
+                text="Beneficiary.tla (per-transaction history entries replaced by incarnation, readers scanning backwards one entry at a time, checked-add fold oldest-first, validation of the whole origin chain, incarnation-guarded record / invalidate) is model-checked on six scripts for: a read that passes the decisive validation equals the in-order credits, and the newest incarnation always wins; the production BeneficiaryHistory is driven by three writers and a reader through preemption-bounded schedules, every run validated against the specification; blocks with zero tips, mixed prices, the beneficiary as recipient / sender / reader, an absent beneficiary and a near-overflow balance run through the real scheduler against stock revm.",
+                design_ref="DESIGN.md 6 (C07)", note="history scripts of spec/beneficiary_scripts.json; fee families of spec/grevm_blocks.json (f_*); per-fork price rule exercised on Shanghai only",
+                technique="TLC model checking of Beneficiary.tla + controlled interleavings of the production history validated against the spec + scheduler scenarios against stock revm"),
+    "C10": dict(category="model_checking",
+                text="Concurrent clause: Cache.tla (reader fill steps lookup / known-check / fetch / insert interleaved with commit's status change, storage removal and slot update) is model-checked for 'what the cache serves afterwards = what a sequential state serves' (the repaired protocol holds, the pinned one is refuted: finding F1), and destroy/probe blocks run through the real scheduler under schedules that interleave the CACHE hook points with every readable value compared with revm State. Sequential clause: thousands of histories of real transactions (create, destroy, re-create, empty-touch, storage churn), increments, drains, merges (both retention modes) and extractions (take_bundle / parallel_take_bundle, empty / pre-populated bundle, three forks) are applied to a ParallelState and to a revm State and results, transitions, readable values and bundles are compared after every step.",
+                design_ref="DESIGN.md 6 (C10), 7", note="oracle = revm State through its Database interface; one account / two slots / two readers in Cache.tla",
+                technique="TLC model checking of Cache.tla + controlled scheduler runs at CACHE hook points + history differential ParallelState vs revm State"),
+    "C14": dict(category="model_checking",
+                text="RunOnce.tla (2-3 callers, atomic election, one application of the block) is model-checked exhaustively for at-most-once, exactly-one-winner and untouched-before; 2-3 real threads race execute / parallel_execute / fallback_sequential on one scheduler of a state-changing block under the controller (schedules enumerated depth-first within a preemption bound, parallel and sequential path), exactly one call may succeed, the others must return the only-once error, outcomes and bundle must equal a single in-order run, and every recorded race is validated against the specification.",
+                design_ref="DESIGN.md 6 (C14)", note="2-transaction block; the elected run itself is not re-interleaved here (C01)",
+                technique="TLC model checking of RunOnce.tla + controlled entry-point races validated against the spec"),
     "C15": dict(category="model_checking",
                 text="Cursor.tla (claim_before load/CAS loop, fetch_min rewind, frontier publish/advance/helping reader, rewind timestamps; one action per atomic operation) is model-checked exhaustively on six scripts for: no claim at or beyond the limit read, every rewound index re-offered, frontier never passes an unexecuted transaction and catches up; the production functions are driven through all schedules within a preemption bound plus random ones and every run is validated against the specification. The finality-timestamp clause is decided in Grevm.tla (FinalityFresh).",
                 design_ref="DESIGN.md 6 (C15)", note="sequentially consistent memory only: weak-memory reorderings are not explored (stated in the evidence)",
